@@ -82,6 +82,10 @@ def step (st : DState) (line : String) : DState × String :=
     match m.toNat? with
     | some m => ({ st with store := .prob ⟨[], 0, m⟩ }, "ok")
     | none => (st, "bad-op")
+  | ["snew", "prob", m, c] =>          -- the store after `c` write operations
+    match m.toNat?, c.toNat? with
+    | some m, some c => ({ st with store := .prob ⟨[], c, m⟩ }, "ok")
+    | _, _ => (st, "bad-op")
   | ["sget", k, now] =>
     match now.toInt? with
     | some now => (st, showOptInt (AnyStore.ops.get st.store k now))
